@@ -21,6 +21,7 @@ from jax import random as jr
 from jaxsmt import concrete, solve, stubs
 from jaxsmt.core import conj, disj, eq_arr, eq_elem, implies, neg
 from jaxsmt.interp import Interp
+from jaxsmt.remq import RemInterp
 from jaxsmt.ops import isconc
 from jaxsmt.trace import trace
 
@@ -68,7 +69,7 @@ class Ctx:
     def __init__(self, ck, name, mode, solver=None):
         sp = SPECS[name]
         self.name, self.sp, self.mode = name, sp, mode
-        self.it = Interp()
+        self.it = RemInterp()
         self.so = R.SymOps(self.it.o)
         dflt = lerax_defaults(sp["cls"])
         self.lnames = [l for l, _ in sp["params"]]
@@ -264,8 +265,8 @@ def ob_vector_field(ck, cx, first):
             wrong = np.array(list(ref), dtype=object)
             k = {"cartpole": 3, "mountain_car": 1, "continuous_mountain_car": 1, "acrobot": 3}[name]
             yy = S["y"]
-            bump = {"cartpole": it.o.unary("sin", yy[2]), "mountain_car": it.o.unary("cos", it.o.mul(Fraction(2), yy[0])),
-                    "continuous_mountain_car": it.o.unary("cos", it.o.mul(Fraction(2), yy[0])), "acrobot": it.o.mul(yy[2], it.o.unary("sin", yy[1]))}[name]
+            bump = {"cartpole": lambda: it.o.unary("sin", yy[2]), "mountain_car": lambda: it.o.unary("cos", it.o.mul(Fraction(2), yy[0])),
+                    "continuous_mountain_car": lambda: it.o.unary("cos", it.o.mul(Fraction(2), yy[0])), "acrobot": lambda: it.o.mul(yy[2], it.o.unary("sin", yy[1]))}[name]()
             wrong[k] = it.o.add(wrong[k], it.o.mul(Fraction(1, 100), bump))
             ck.control(f"control.{name}.vector_field_perturbed", [], eq_arr(out["x"], wrong), nonlinear=True)
 
@@ -292,7 +293,9 @@ def ob_limits(ck, cx, first):
     out = tr.run(it, S)
     y = R.nums(cx.so, list(S["y"]))
     if name == "acrobot":
+        cx.so.int_candidates = list(it.quotients)
         goal = R.acrobot_limits_ok(cx.p, y, R.nums(cx.so, list(out["x"]))).v
+        defs = list(it.assumptions)
 
         def rp(res):
             keys = concrete.KeyBinding(res)
@@ -307,11 +310,11 @@ def ob_limits(ck, cx, first):
             return (not ok), {"raw_integrator_output": yv, "real_code_clip": real.tolist(), "gymnasium_wrap_bound_of_the_same_raw_state": [float(v) for v in img],
                               "property": "angles wrapped into [-pi,pi] modulo 2*pi, velocities bounded", "function": tr.label}
         margin = implies(conj(bounded(list(S["y"]), -20, 20) + cx.sane()), goal)
-        ck.prove(f"{name}.limits@{cx.tag}", [], goal, replay=rp, margin_goal=margin)
+        ck.prove(f"{name}.limits@{cx.tag}", defs, goal, replay=rp, margin_goal=implies(conj(defs), margin))
         if first:
             pi = R.Num(cx.so.const(math.pi), cx.so)
             o0 = R.Num(out["x"][0], cx.so)
-            ck.control(f"control.{name}.limits_wrap_to_0_2pi", [], ((o0 >= 0) & (o0 <= 2 * pi)).v)
+            ck.control(f"control.{name}.limits_wrap_to_0_2pi", defs, ((o0 >= 0) & (o0 <= 2 * pi)).v)
     else:
         ref = np.array(R.values(sp["limits"](cx.p, y)), dtype=object)
         goal = eq_arr(out["x"], ref)
